@@ -269,12 +269,16 @@ def gen_hat(rng, kind):
     if kind == "lj":
         cl = rng.choice([1.0, logu(rng, 0.3, 3.0)])
         k = rng.choice([1.0, logu(rng, 0.05, 20.0)])
+        if rng.random() < 0.12:                     # "all potential parameters": energy scales far from 1 (SI units, weak couplings)
+            k = logu(rng, 1e-22, 1e-9) if rng.random() < 0.6 else logu(rng, 1e4, 1e9)
         r0 = cl * 2.0 ** (1.0 / 6.0)
         case = {"kind": "lj", "prefactor": k, "cl": cl}
         lo, hi = 0.75 * cl, 4.0 * cl
     else:
         r0 = rng.choice([1.0, logu(rng, 0.3, 3.0)])
         k = rng.choice([1.0, logu(rng, 0.05, 20.0)])
+        if rng.random() < 0.12:                     # "all potential parameters": energy scales far from 1 (SI units, weak couplings)
+            k = logu(rng, 1e-22, 1e-9) if rng.random() < 0.6 else logu(rng, 1e4, 1e9)
         power = rng.choice([2, 2, 4, 6, 8])
         case = {"kind": "ep", "prefactor": k, "eq": r0, "power": power}
         lo, hi = 0.02 * r0, 3.0 * r0
